@@ -131,6 +131,10 @@ func goSyntaxFull(n *node) string {
 		return "map[string]any{" + pairs(true, false) + "}"
 	case "mapsa":
 		return "Map[string,any]{" + pairs(true, false) + "}"
+	case "runes":
+		return "[]rune{" + elems(n.kids, true) + "}"
+	case "lrune":
+		return "List[rune]{" + elems(n.kids, true) + "}"
 	case "iis":
 		s := make([]string, len(n.kids))
 		for i, k := range n.kids {
@@ -408,7 +412,7 @@ func naturalRank(na, nb *node) string {
 		return cmp(len(xs) < len(ys), len(xs) > len(ys))
 	}
 	switch na.kind {
-	case "slice", "array", "list", "queue", "ints", "strs", "flts", "lint", "iis":
+	case "slice", "array", "list", "queue", "ints", "strs", "flts", "lint", "iis", "runes", "lrune":
 		return lex(na.kids, nb.kids)
 	case "assoc":
 		if r := naturalRank(na.kids[0], nb.kids[0]); r != "Equal" {
